@@ -544,6 +544,7 @@ pub fn confirm_any(sim: &str, v: &Value) -> Result<bool, String> {
         "hashsim" => confirm_hashsim(v),
         "cellsim" => confirm_cellsim(v),
         "ossim" => confirm_ossim(v),
+        "replsim" => confirm_replsim(v),
         other => Err(format!("unknown sim {other}")),
     }
 }
@@ -710,6 +711,140 @@ pub fn check_ossim(property: &str, tier: &str) -> i32 {
         assumptions: vec![
             "the in-memory FS answers like Linux std::fs for the path universe used (checked against the real file system in a scratch directory on the fault-free sequences; count in probes.validated_against_real_fs)".into(),
             "injected errno kinds are ones std can return on Linux; torn effects are modelled for write, copy, remove_dir_all and create_dir_all only".into(),
+        ],
+        violations: confirmed,
+        harness_errors,
+        wall_s: wall,
+    })
+}
+
+// ---------------------------------------------------------------------------------------------
+// replsim (C17)
+
+fn confirm_replsim(v: &Value) -> Result<bool, String> {
+    let out = proc::call(&["single", "replsim"], &v["scenario"])?;
+    let class = v["class"].as_str().unwrap_or("");
+    Ok(out["violation"].as_array().map_or(false, |a| a[0].as_str() == Some(class)))
+}
+
+pub fn check_replsim(property: &str, tier: &str) -> i32 {
+    let t0 = Instant::now();
+    let seed = verif_seed();
+    let thorough = tier == "thorough";
+    let par = workers();
+    let boots = if thorough { 4 } else { 2 };
+    let shards = (par / boots).max(1);
+    let runs: u64 = if thorough { 400_000 } else { 6_000 };
+    let nw = (boots * shards) as u64;
+    let mut jobs = Vec::new();
+    for b in 0..boots {
+        for s in 0..shards {
+            jobs.push((
+                vec!["worker".to_string(), "replsim".to_string()],
+                json!({"property": property, "tier": tier, "seed": seed, "boot_seed": hashsim::boot_seed_n(seed, b), "shard": (b * shards + s) as u64, "shards": nw, "runs": runs}),
+            ));
+        }
+    }
+    let results = proc::call_many(jobs, par);
+    let mut harness_errors = Vec::new();
+    let mut candidates: Vec<Value> = Vec::new();
+    let mut n = 0u64;
+    let mut counters: BTreeMap<String, u64> = BTreeMap::new();
+    let mut hist: BTreeSet<String> = BTreeSet::new();
+    let mut samples = Vec::new();
+    let mut pool = 0;
+    for r in results {
+        match r {
+            Err(e) => harness_errors.push(json!({"what": "worker failed", "error": e})),
+            Ok(v) => {
+                n += v["runs"].as_u64().unwrap_or(0);
+                pool = v["sessions_in_pool"].as_u64().unwrap_or(0);
+                for k in ["events", "prefixes_compared", "prefixes_inconclusive", "scoped_checked", "again_checked", "hostcalls", "hostcalls_rejected_both", "variables_compared"] {
+                    *counters.entry(k.to_string()).or_default() += v[k].as_u64().unwrap_or(0);
+                }
+                for d in v["hist_digests"].as_array().cloned().unwrap_or_default() {
+                    hist.insert(d.as_str().unwrap().to_string());
+                }
+                for h in v["harness_errors"].as_array().cloned().unwrap_or_default() {
+                    harness_errors.push(h);
+                }
+                for c in v["violations"].as_array().cloned().unwrap_or_default() {
+                    candidates.push(c);
+                }
+                if samples.len() < 3 {
+                    for s in v["samples"].as_array().cloned().unwrap_or_default().into_iter().take(1) {
+                        samples.push(s);
+                    }
+                }
+            }
+        }
+    }
+    let mut confirmed = Vec::new();
+    let mut per_class: BTreeMap<String, usize> = BTreeMap::new();
+    let mut seen: BTreeSet<String> = BTreeSet::new();
+    let mut unconfirmed = 0;
+    for c in candidates {
+        let class = c["class"].as_str().unwrap_or("").to_string();
+        let k = per_class.entry(class.clone()).or_default();
+        if *k >= 4 {
+            continue;
+        }
+        *k += 1;
+        let mut c = c;
+        c["sim"] = json!("replsim");
+        match proc::call(&["minimise", "replsim"], &json!({"scenario": c["scenario"], "class": class})) {
+            Ok(m) if m["reproduced"].as_bool() == Some(true) => {
+                c["original_scenario"] = c["scenario"].clone();
+                c["scenario"] = m["scenario"].clone();
+                c["detail"] = m["detail"].clone();
+                c["log"] = m["log"].clone();
+                c["minimise_trials"] = m["trials"].clone();
+            }
+            Ok(_) => {}
+            Err(e) => harness_errors.push(json!({"what": "minimiser failed", "error": e})),
+        }
+        let st: Vec<String> = c["scenario"]["statements"].as_array().map(|a| a.iter().map(|s| s.as_str().unwrap_or("").to_string()).collect()).unwrap_or_default();
+        c["subject_id"] = json!(format!("{} || again: {}", st.join(" ;; "), c["scenario"]["again"].as_str().unwrap_or("")));
+        if !seen.insert(format!("{class}|{}", c["subject_id"])) {
+            continue;
+        }
+        match confirm_replsim(&c) {
+            Ok(true) => confirmed.push(c),
+            Ok(false) => {
+                unconfirmed += 1;
+                harness_errors.push(json!({"what": "candidate did not reproduce in a fresh process", "candidate": c}));
+            }
+            Err(e) => harness_errors.push(json!({"what": "replay failed", "error": e})),
+        }
+    }
+    let wall = t0.elapsed().as_secs_f64();
+    let coverage = json!({
+        "evaluations": n,
+        "distinct_nontrivial": hist.len(),
+        "rule": "One run = one host history against one Interpreter::with_stdlib(): a session (hand-written sessions on cells, closures, shadowing, modules, iterators, recursion, own-name parameters; the repo's example scripts and README blocks; one third with identifiers redrawn from a 3-name pool) split into REPL inputs of seeded sizes, interleaved with `exec()` of programs parsed against the live interpreter, plus a self-contained program executed three times, plus host calls vs in-language calls (well-typed, ill-typed, too short, too long argument vectors) on every function the session bound - all under the run's hash keys. Reference: the batch route for every prefix at which an input ended. distinct_nontrivial = distinct histories (digest of inputs, results and calls).",
+        "samples": samples,
+        "simulated_time_events": counters.get("events"),
+        "probes": counters,
+        "sessions_in_pool": pool,
+        "runs_per_hour": (n as f64 / wall * 3600.0) as u64,
+        "seeds_per_hour": (n as f64 / wall * 3600.0) as u64,
+        "fault_kinds_fired": {"hash_key_reseed": n, "identifier_collision_sessions": n / 3},
+        "boot_seeds": boots,
+        "worker_processes": boots * shards,
+        "unconfirmed_candidates": unconfirmed,
+        "real_vs_stub": {"real": ["Code::parse against a live interpreter (Instruction::new_ident constant fallback)", "exec / exec_unscoped", "Function::create_call / call::create_from_variables", "parser, checker, interpreter"], "stub": ["rustyline loop of src/main.rs (its three calls are reproduced verbatim)", "stdout captured"]},
+        "exhaustive": false,
+    });
+    finish(Report {
+        property: property.to_string(),
+        tier: tier.to_string(),
+        seed,
+        level: "exploration",
+        coverage,
+        assumptions: vec![
+            "statements are joined with `;\\n` for the batch route (a bare newline lets `f()` / `*x` fuse into a multiplication)".into(),
+            "values are compared by content: stored element types and declared cell types may legitimately differ between the routes".into(),
+            "a route that is rejected, fails or panics makes the rest of the session inconclusive (the property speaks about completed runs)".into(),
         ],
         violations: confirmed,
         harness_errors,
